@@ -26,8 +26,13 @@ SHAPES = [(), (3,), (2, 2)]
 VALS = [0.0, 1.0, -1.0, 2.5, -40.0, 98.6, 1e-12, 3.7e-6, 1234.5678, 6.02e11, -7.5e12, 300.0, 0.125]
 
 
+CUSTOM = {}   # per-child: name -> (a, b) of generated custom-registry units (base = a*reading + b); only used for the error bound
+
+
 def affine(name):
     """base = a*reading + b ; returns (a, b) for a documented atomic name, (scale, 0) otherwise"""
+    if name in CUSTOM:
+        return CUSTOM[name]
     r = names.resolve(name)
     if r is None:
         return None
@@ -50,7 +55,7 @@ def eps_of(dt):
     return np.finfo("f%d" % max(2, dt.itemsize)).eps
 
 
-def make(unyt, r, unit, dtype, shape):
+def make(unyt, r, unit, dtype, shape, reg=None, layout="c"):
     n = int(np.prod(shape)) if shape else 1
     vals = [r.choice(VALS) for _ in range(n)]
     if np.dtype(dtype).kind in "iu":
@@ -58,9 +63,18 @@ def make(unyt, r, unit, dtype, shape):
     a = np.array(vals, dtype=dtype).reshape(shape)
     if np.dtype(dtype).kind == "c":
         a = a + 1j * np.array([r.choice(VALS[:6]) for _ in range(n)]).reshape(shape)
+    kw = {} if reg is None else {"registry": reg}
     if shape == ():
-        return unyt.unyt_quantity(a[()], unit)
-    return unyt.unyt_array(a, unit)
+        return unyt.unyt_quantity(a[()], unit, **kw)
+    if layout == "strided":      # every second element of a larger buffer: a non-contiguous view
+        big = np.zeros((a.shape[0] * 2,) + a.shape[1:], dtype=a.dtype)
+        big[::2] = a
+        return unyt.unyt_array(big, unit, **kw)[::2]
+    if layout == "fortran" and a.ndim == 2:
+        return unyt.unyt_array(np.asfortranarray(a), unit, **kw)
+    if layout == "transposed" and a.ndim == 2:
+        return unyt.unyt_array(np.ascontiguousarray(a.T), unit, **kw).T
+    return unyt.unyt_array(a, unit, **kw)
 
 
 def mag(x):
@@ -99,7 +113,7 @@ def numbers(q):
     return np.asarray(q.d if hasattr(q, "d") else q)
 
 
-def run_routes(unyt, x, B):
+def run_routes(unyt, x, B, objects=False):
     """all copying and in-place routes for the request 'x in units B' -> {route: (numbers, unit-or-None)} or exception names"""
     out = {}
 
@@ -117,6 +131,22 @@ def run_routes(unyt, x, B):
         c.convert_to_units(B)
         return numbers(c), c.units
     rec("convert_to_units", inplace)
+    if objects:
+        try:
+            ub_ = unyt.Unit(B, registry=x.units.registry)
+        except Exception:
+            ub_ = None
+        if ub_ is not None:
+            rec("to(Unit)", lambda: (lambda y: (numbers(y), y.units))(x.to(ub_)))
+            rec("in_units(Unit)", lambda: (lambda y: (numbers(y), y.units))(x.in_units(ub_)))
+            rec("to_value(Unit)", lambda: (np.asarray(x.to_value(ub_)), None))
+            rec("to(quantity)", lambda: (lambda y: (numbers(y), y.units))(x.to(unyt.unyt_quantity(1.0, ub_))))
+
+            def inplace_obj():
+                c = x.copy()
+                c.convert_to_units(ub_)
+                return numbers(c), c.units
+            rec("convert_to_units(Unit)", inplace_obj)
 
     def byhand():
         ub = unyt.Unit(B, registry=x.units.registry)
@@ -147,14 +177,22 @@ def agree(rec, law, key, vals, tol, ops, units=None):
     return True
 
 
-def check_triple(unyt, rec, r, A, B, C, dtype, shape, fam):
-    x = make(unyt, r, A, dtype, shape)
+LAYOUTS = ["c", "c", "strided", "fortran", "transposed"]
+
+
+def check_triple(unyt, rec, r, A, B, C, dtype, shape, fam, reg=None):
+    layout = r.choice(LAYOUTS) if shape else "c"
+    objects = r.random() < 0.35
+    x = make(unyt, r, A, dtype, shape, reg, layout)
     x0 = x.copy()
+    rec.count("layout:" + layout)
+    if objects:
+        rec.count("unit-object-targets")
     eps = eps_of(dtype)
     ops = {"A": A, "B": B, "C": C, "dtype": dtype, "shape": list(shape), "x": np.asarray(x.d).tolist()}
     cell = (fam, A, B, C, dtype, len(shape))
     # identity
-    ident = run_routes(unyt, x, A)
+    ident = run_routes(unyt, x, A, objects)
     for name, v in ident.items():
         if isinstance(v[0], str) and v[0] == "EXC":
             rec.violation(f"C03:identity:{fam}:{name}:raises", f"{A}->{A} via {name} raised {v[1]}: {v[2]}", ops); return
@@ -168,7 +206,7 @@ def check_triple(unyt, rec, r, A, B, C, dtype, shape, fam):
             rec.violation(f"C03:identity:{fam}:{name}", f"{A}->{A} via {name}: {want.tolist()} became {got.tolist()}", ops); return
     # conversion factors that under/overflow the float type are a range matter, not a conversion law
     try:
-        bv = [abs(unyt.Unit(u).base_value) for u in (A, B, C) if u is not None]
+        bv = [abs(unyt.Unit(u, registry=x.units.registry).base_value) for u in (A, B, C) if u is not None]
         ft = np.finfo("f%d" % (np.dtype(dtype).itemsize // 2) if np.dtype(dtype).kind == "c" else ("f%d" % max(2, np.dtype(dtype).itemsize) if np.dtype(dtype).kind in "iu" else dtype))
         for p_ in bv:
             for q_ in bv:
@@ -177,7 +215,7 @@ def check_triple(unyt, rec, r, A, B, C, dtype, shape, fam):
     except Exception:
         pass
     # A -> B by all routes
-    ab = run_routes(unyt, x, B)
+    ab = run_routes(unyt, x, B, objects)
     if not in_range(ab.get("to", (None,))[0], dtype):
         rec.count("discarded:out-of-float-range"); return
     excs = {k: v for k, v in ab.items() if isinstance(v[0], str)}
@@ -196,7 +234,7 @@ def check_triple(unyt, rec, r, A, B, C, dtype, shape, fam):
         tolB = 16 * eps * np.abs(ref.astype(complex))
     if not agree(rec, "routes", fam, {k: v[0] for k, v in ab.items()}, tolB, ops, {k: v[1] for k, v in ab.items()}):
         return
-    if np.any(x.d != x0.d) or x.units != x0.units:
+    if np.any(x.d != x0.d) or x.units != x0.units or str(x.units) != str(x0.units):
         rec.violation(f"C03:copying-route-mutated-input:{fam}", f"{A}->{B}: input changed", ops); return
     y = x.to(B)
     # inverse
@@ -227,6 +265,7 @@ def check_triple(unyt, rec, r, A, B, C, dtype, shape, fam):
             rec.violation(f"C03:composition:{fam}", f"{A}->{C} = {np.asarray(direct.d).tolist()} but {A}->{B}->{C} = {np.asarray(via.d).tolist()} (bound {np.max(tolC):.3g})", ops); return
         if str(direct.units) != str(via.units):
             rec.violation(f"C03:composition:{fam}:unit", f"{direct.units} vs {via.units}", ops); return
+    rec.count("laws-held:" + fam.split("-")[0] + (":offset-unit" if any((affine(u) or (1, 0))[1] != 0 for u in (A, B, C) if u) else ""))
     rec.ok(cell)
 
 
@@ -275,6 +314,44 @@ def gen_compound(r, pools):
     return outs
 
 
+# ---- generated affine families: the run-time counterpart of "all real scale/offset parameters" --------------------------------
+AFF_SCALES = [1.0, 0.5, 2.0, 4096.0, 1.8, 5 / 9, 1e-3, 1e6, 3.25, 0.1, 7.0, 1 / 3]
+AFF_OFFSETS = [0.0, -273.15, -459.67, 32.0, 90.0, -180.0, 0.5, -4096.0, 1e4, -1e-3, 7.25, 1 / 3]
+AFF_PREFIXES = {"k": 1e3, "m": 1e-3, "M": 1e6, "u": 1e-6, "c": 1e-2, "G": 1e9}
+
+
+def build_affine_registry(unyt, r, tag):
+    """a registry with generated offset units in four dimension families -> (registry, {family: [names]})
+    CUSTOM receives the affine map (a, b) of every generated name (base = a*reading + b), which only feeds the error bound:
+    plain unit (s, o): a = s, b = -s*o ; prefixed p: the library keeps one fixed map per name (a = p*s; b = -o for temperature,
+    -p*s*o elsewhere) - whichever it is, the laws are judged on the library's own results only."""
+    from unyt import dimensions as D
+    reg = unyt.UnitRegistry()
+    fams = {}
+    dimsets = {"temperature": (D.temperature, ["K", "degC", "degF", "R", "mK", "kdegC", "delta_degC"]),
+               "angle": (D.angle, ["rad", "degree", "lat", "lon", "arcmin", "mrad"]),
+               "length": (D.length, ["m", "km", "inch", "pc"]),
+               "energy": (D.energy, ["J", "erg", "eV", "kWh"])}
+    for fam, (dim, builtin) in dimsets.items():
+        names_ = list(builtin)
+        for i in range(5):
+            s_ = r.choice(AFF_SCALES) if r.random() < 0.6 else math.exp(r.uniform(-12, 12))
+            o_ = r.choice(AFF_OFFSETS) if r.random() < 0.6 else r.uniform(-1, 1) * 10 ** r.randint(-3, 4)
+            if i == 0:
+                o_ = 0.0          # a plain (offset-free) user unit among the affine ones
+            pref = r.random() < 0.6
+            nm = f"q{fam[:2]}{tag}x{i}"
+            reg.add(nm, s_, dim, offset=o_, prefixable=pref)
+            CUSTOM[nm] = (s_, -s_ * o_)
+            names_.append(nm)
+            if pref:
+                for p_, f_ in r.sample(sorted(AFF_PREFIXES.items()), 2):
+                    CUSTOM[p_ + nm] = (f_ * s_, -o_ if fam == "temperature" else -f_ * s_ * o_)
+                    names_.append(p_ + nm)
+        fams[fam] = names_
+    return reg, fams
+
+
 def batches(tier, seed):
     b = []
     tt = list(itertools.product(TEMP, TEMP))
@@ -287,6 +364,8 @@ def batches(tier, seed):
     b += [("dim/%d" % i, ("dim", (seed, i, per))) for i in range(n)]
     b += [("compound/%d" % i, ("compound", (seed, i, per))) for i in range(n)]
     b += [("base-routes/%d" % i, ("base", (seed, i, 8))) for i in range(8)]
+    na = 16 if tier == "quick" else 96
+    b += [("affine/%d" % i, ("affine", (seed, i, 260 if tier == "quick" else 1200))) for i in range(na)]
     return b
 
 
@@ -341,6 +420,19 @@ def worker(batch, rec):
             A, B, C = gen_compound(r, pools)
             check_triple(unyt, rec, r, A, B, C, r.choice(DTYPES), r.choice(SHAPES), "compound")
         rec.sample({"compound_example": gen_compound(r, pools)})
+    elif kind == "affine":
+        seed, i, n = payload
+        r = core.rng(seed, "affine", i)
+        reg, fams = build_affine_registry(unyt, r, i)
+        for k in range(n):
+            fam = r.choice(sorted(fams))
+            pool = fams[fam]
+            A, B, C = r.choice(pool), r.choice(pool), r.choice(pool)
+            if not any(u in CUSTOM for u in (A, B, C)):
+                A = r.choice([u for u in pool if u in CUSTOM])
+            check_triple(unyt, rec, r, A, B, C if r.random() < 0.8 else None, r.choice(DTYPES), r.choice(SHAPES), "affine-" + fam, reg)
+            rec.count("affine-triples")
+        rec.sample({"affine_registry": {k_: list(v) for k_, v in list(CUSTOM.items())[:4]}})
     elif kind == "base":
         seed, i, n = payload
         r = core.rng(seed, "base", i)
@@ -350,3 +442,17 @@ def worker(batch, rec):
                 for shape in SHAPES:
                     check_base_routes(unyt, rec, r, A, dtype, shape, "base")
         rec.sample({"base_route_units": units[:4]})
+
+
+def extra(tier, seed, results):
+    """sub-monitor counters; a family that never completed a judged triple makes the run inconclusive"""
+    c = {}
+    for _, r in results:
+        for k, v in (r.get("counters") or {}).items():
+            c[k] = c.get(k, 0) + v
+    need = ["laws-held:temperature:offset-unit", "laws-held:angle:offset-unit", "laws-held:em", "laws-held:dim", "laws-held:compound",
+            "laws-held:affine:offset-unit", "unit-object-targets", "layout:strided"]
+    missing = [k for k in need if not c.get(k)]
+    if missing:
+        raise core.Inconclusive("sub-monitors-never-evaluated:" + ",".join(missing))
+    return {"sub_monitor_counters": {k: v for k, v in sorted(c.items()) if k.startswith(("laws-held", "layout", "unit-object", "affine"))}}
